@@ -6,7 +6,9 @@ concurrent.futures.Future objects, driven through a completion order; the
 observable is the state of every script result after each completion and the
 number of exceptions swallowed by the futures' callback runner.
 
-    script = {"ext": k, "ops": [op...], "results": [res...], "sigma": [i...]}
+    script = {"ext": k, "ops": [op...], "results": [res...], "sigma": [i...], "pre": [i...]}
+             pre: externals completed *before* the combinators are applied (already-done
+             futures entering chain / gather_futures / unwrap_future); sigma: the others
     op     = ["gather", [arg...]] | ["chain", arg, then, else_|None] | ["unwrap", arg]
     arg    = ["p", n] | ["e", i] | ["r", j]        plain / external future i / result of op j
     res    = ["v", arg] | ["x", n, handled]
@@ -99,9 +101,18 @@ def _run(sc, counter):
     ext = [Future() for _ in range(sc["ext"])]
     res, raised = [], []
 
+    def complete(i):
+        r = sc["results"][i]
+        if r[0] == "v":
+            ext[i].set_result(arg(r[1]))
+        else:
+            ext[i].set_exception(Handled(r[1]) if r[2] else Other(r[1]))
+
     def arg(a):
         return a[1] if a[0] == "p" else ext[a[1]] if a[0] == "e" else res[a[1]]
 
+    for i in sc.get("pre", []):
+        complete(i)
     for op in sc["ops"]:
         try:
             if op[0] == "gather":
@@ -135,11 +146,7 @@ def _run(sc, counter):
 
     snaps = [snap()]
     for i in sc["sigma"]:
-        r = sc["results"][i]
-        if r[0] == "v":
-            ext[i].set_result(arg(r[1]))
-        else:
-            ext[i].set_exception(Handled(r[1]) if r[2] else Other(r[1]))
+        complete(i)
         snaps.append(snap())
     return {"snaps": snaps, "swallowed": counter.n}
 
@@ -163,32 +170,74 @@ def _rand_result(rng, i, k, p_fail=0.3):
     return ["v", ["p", rng.randint(0, 50)]]
 
 
+def _subsets(k):
+    for mask in range(1 << k):
+        yield [i for i in range(k) if mask >> i & 1]
+
+
+OUTCOMES = [["v", ["p", 9]], ["x", 3, True], ["x", 4, False]]
+
+
 def families(rng, quick):
-    """the shapes the layer-1 theorems speak about, under every completion order"""
+    """the shapes the layer-1 theorems speak about: every subset of the sources already
+    finished when the combinator is applied x every completion order of the others, with a
+    success / handled failure / other failure at every position (exhaustive, not sampled)"""
     out = []
     cap = 24 if quick else 120
-    # gather over n sources, plain values interleaved, each future failing or not
-    for k in ([1, 2, 3] if quick else [1, 2, 3, 4, 5]):
-        for _ in range(3 if quick else 8):
+    # gather: k futures (+ plain values interleaved), every outcome assignment
+    for k in ([1, 2, 3] if quick else [1, 2, 3, 4]):
+        shapes = [[["e", i] for i in range(k)], [["p", 1]] + [["e", i] for i in range(k)],
+                  [["e", i] for i in range(k)][::-1] + [["p", 2]]]
+        for results in itertools.product(OUTCOMES, repeat=k):
+            if k == 4 and sum(1 for r in results if r[0] == "x") > 2:
+                continue
+            args = shapes[len(out) % 3]
+            for pre in _subsets(k):
+                rest = [i for i in range(k) if i not in pre]
+                for sg in _perms_of(rest, rng, cap):
+                    out.append({"ext": k, "ops": [["gather", args]], "results": list(results),
+                                "sigma": list(sg), "pre": pre})
+    # gather with futures resolving to futures / random mixes (results are not unwrapped by gather)
+    for k in ([2, 3] if quick else [2, 3, 4, 5]):
+        for _ in range(4 if quick else 10):
             args = [["e", i] for i in range(k)] + [["p", rng.randint(0, 9)] for _ in range(rng.randint(0, 2))]
             rng.shuffle(args)
-            results = [_rand_result(rng, k, k, rng.choice([0.0, 0.4, 0.8])) for _ in range(k)]
-            for sg in _perms(k, rng, cap):
-                out.append({"ext": k, "ops": [["gather", args]], "results": results, "sigma": list(sg)})
-    # chain: every then / else_ / source outcome
+            results = [_rand_result(rng, i, k, rng.choice([0.0, 0.4, 0.8])) for i in range(k)]
+            pre = [i for i in range(k) if rng.random() < 0.3]
+            rest = [i for i in range(k) if i not in pre]
+            for sg in _perms_of(rest, rng, cap):
+                out.append({"ext": k, "ops": [["gather", args]], "results": results, "sigma": list(sg), "pre": pre})
+    # chain: every then / else_ / source outcome, source pending or already finished
     for then in range(5):
         for els in (None, 0, 3):
             for res in (["v", ["p", 5]], ["x", 3, True], ["x", 4, False]):
-                out.append({"ext": 1, "ops": [["chain", ["e", 0], then, els]], "results": [res], "sigma": [0]})
-            out.append({"ext": 0, "ops": [["chain", ["p", 5], then, els]], "results": [], "sigma": []})
-    # unwrap: nesting e0 -> e1 -> ... -> value / failure, every completion order
-    for k in ([1, 2, 3, 4] if quick else [1, 2, 3, 4, 5]):
+                out.append({"ext": 1, "ops": [["chain", ["e", 0], then, els]], "results": [res], "sigma": [0], "pre": []})
+                out.append({"ext": 1, "ops": [["chain", ["e", 0], then, els]], "results": [res], "sigma": [], "pre": [0]})
+            out.append({"ext": 0, "ops": [["chain", ["p", 5], then, els]], "results": [], "sigma": [], "pre": []})
+    # unwrap: nest e0 -> e1 -> ... -> value / failure; every subset already finished, every order of the rest
+    for k in ([1, 2, 3] if quick else [1, 2, 3, 4]):
         for last in (["v", ["p", 9]], ["x", 2, False], ["x", 2, True]):
             results = [["v", ["e", i + 1]] for i in range(k - 1)] + [last]
-            for sg in _perms(k, rng, cap):
-                out.append({"ext": k, "ops": [["unwrap", ["e", 0]]], "results": results, "sigma": list(sg)})
-    out.append({"ext": 0, "ops": [["unwrap", ["p", 3]], ["gather", []], ["gather", [["p", 1], ["p", 2]]]], "results": [], "sigma": []})
+            for pre in _subsets(k):
+                rest = [i for i in range(k) if i not in pre]
+                for sg in _perms_of(rest, rng, cap):
+                    out.append({"ext": k, "ops": [["unwrap", ["e", 0]]], "results": results, "sigma": list(sg), "pre": pre})
+    # the executor's composition unwrap(chain(unwrap(f), then, else_)) over done / pending futures
+    for then in (0, 2, 3):
+        for res in OUTCOMES:
+            for pre in ([], [0]):
+                out.append({"ext": 1, "ops": [["unwrap", ["e", 0]], ["chain", ["r", 0], then, 0], ["unwrap", ["r", 1]]],
+                            "results": [res], "sigma": [i for i in [0] if i not in pre], "pre": pre})
+    out.append({"ext": 0, "ops": [["unwrap", ["p", 3]], ["gather", []], ["gather", [["p", 1], ["p", 2]]]],
+                "results": [], "sigma": [], "pre": []})
     return out
+
+
+def _perms_of(items, rng, cap):
+    ps = list(itertools.permutations(items))
+    if len(ps) > cap:
+        ps = rng.sample(ps, cap)
+    return ps
 
 
 def random_script(rng):
@@ -210,9 +259,10 @@ def random_script(rng):
         else:
             ops.append(["unwrap", arg()])
     results = [_rand_result(rng, i, k) for i in range(k)]
-    sigma = list(range(k))
+    pre = [i for i in range(k) if rng.random() < 0.25]
+    sigma = [i for i in range(k) if i not in pre]
     rng.shuffle(sigma)
-    return {"ext": k, "ops": ops, "results": results, "sigma": sigma}
+    return {"ext": k, "ops": ops, "results": results, "sigma": sigma, "pre": pre}
 
 
 # ---------------------------------------------------------------- Coq terms
@@ -261,9 +311,10 @@ def _c_ostate(o):
 
 
 def c_script(sc):
-    return "(MkScript (N.to_nat %d) [%s] [%s] [%s])" % (
+    return "(MkScript (N.to_nat %d) [%s] [%s] [%s] [%s])" % (
         sc["ext"], "; ".join(_c_op(o) for o in sc["ops"]), "; ".join(_c_res(r) for r in sc["results"]),
-        "; ".join("N.to_nat %d" % i for i in sc["sigma"]))
+        "; ".join("N.to_nat %d" % i for i in sc["sigma"]),
+        "; ".join("N.to_nat %d" % i for i in sc.get("pre", [])))
 
 
 def c_case(sc, obs):
